@@ -60,14 +60,48 @@ def rule_r1(rep, program: Program):
     return r
 
 
-def gaussian_flow(program: Program):
+TRIVIAL_EIGENBASIS = {"IdentityMatrix", "ScaledIdentityMatrix", "PositiveScaledIdentityMatrix", "DiagonalMatrix", "PositiveDiagonalMatrix"}
+
+
+def gaussian_flow_variants(program: Program):
+    """The harmonic flow, once per path selected by a test on the type of the metric
+    (`if isinstance(self.metric, C): <fast path>`): [(label, rotation-free allowed?, env)]."""
     k = program.cls("GaussianEuclideanMetricSystem")
     f = k.methods.get("h2_flow")
     if f is None:
         raise AnalysisError("GaussianEuclideanMetricSystem.h2_flow not found")
-    env = SymEnv({"self.metric.eigval": S("R") * S("R")}, cls=k)  # eigval = R**2 per eigen-mode (eigval > 0)
-    env.run(f.body_without_docstring())
-    return k, f, env
+    body = list(f.body_without_docstring())
+    paths = [("general", False, body)]
+    for i, st in enumerate(body):
+        if not isinstance(st, ast.If):
+            continue
+        t, neg = st.test, False
+        if isinstance(t, ast.UnaryOp) and isinstance(t.op, ast.Not):
+            t, neg = t.operand, True
+        if isinstance(t, ast.Call) and norm(t.func) == "isinstance" and len(t.args) == 2 and norm(t.args[0]) == "self.metric":
+            classes = [norm(x).split(".")[-1] for x in (t.args[1].elts if isinstance(t.args[1], ast.Tuple) else [t.args[1]])]
+            special, general = (st.orelse, st.body) if neg else (st.body, st.orelse)
+
+            def seq(arm):
+                arm = list(arm)
+                leaves = bool(arm) and isinstance(arm[-1], ast.Return)
+                arm = [x for x in arm if not isinstance(x, ast.Return)]
+                return body[:i] + arm + ([] if leaves else body[i + 1 :])
+
+            trivial = all(c in TRIVIAL_EIGENBASIS for c in classes)
+            paths = [("general", False, seq(general)), (f"fast path for {'/'.join(classes)}", trivial, seq(special))]
+            break
+    out = []
+    for label, rot_free, stmts in paths:
+        env = SymEnv({"self.metric.eigval": S("R") * S("R"), "self.metric.scalar": S("R") * S("R"), "self.metric.diagonal": S("R") * S("R")}, cls=k)  # eigval = R**2 per eigen-mode (eigval > 0)
+        env.run(stmts)
+        out.append((label, rot_free, env))
+    return k, f, out
+
+
+def gaussian_flow(program: Program):
+    k, f, variants = gaussian_flow_variants(program)
+    return k, f, variants[0][2]
 
 
 E, ET = "self.metric.eigvec", "self.metric.eigvec.T"
@@ -75,11 +109,17 @@ E, ET = "self.metric.eigvec", "self.metric.eigvec.T"
 
 def rule_r2(rep, program: Program):
     r = rep.rule("R2", "harmonic flow is the exact flow of h2 in the metric eigenbasis: solves Hamilton's equations for all t, identity at t=0, frequencies eigval**-1/2, rotation into/out of the eigenbasis", floor=8)
-    k, f, env = gaussian_flow(program)
+    k, f, variants = gaussian_flow_variants(program)
+    for label, rot_free, env in variants:
+        _r2_path(r, program, k, f, env, label, rot_free)
+    return r
+
+
+def _r2_path(r, program, k, f, env, label, rot_free):
     sp, dt = f.params[1], f.params[2]
     q1, p1 = env.env.get(f"{sp}.pos"), env.env.get(f"{sp}.mom")
     if q1 is None or p1 is None:
-        r.violate(PROP, f"{f.qualname}:writes", "the harmonic flow does not assign both position and momentum", node=f.node, file=f.file)
+        r.violate(PROP, f"{f.qualname}[{label}]:writes", "the harmonic flow does not assign both position and momentum", node=f.node, file=f.file)
         return r
     root = S("R")
     lam = root * root
@@ -91,27 +131,27 @@ def rule_r2(rep, program: Program):
     if len(sins) + len(coss) == 1:
         have = "sin" if sins else "cos"
         miss = "cos" if sins else "sin"
-        r.violate(PROP, f"{f.qualname}:single-trig-term:{have}", f"the harmonic flow evaluates only {have}(omega*dt); the {miss} factor it needs is then derived from that value (e.g. sqrt(1 - {have}**2) = |{miss}|), which loses its sign: the map is the exact flow only while omega*|dt| stays within a quarter period", node=f.node, file=f.file)
+        r.violate(PROP, f"{f.qualname}[{label}]:single-trig-term:{have}", f"the harmonic flow evaluates only {have}(omega*dt); the {miss} factor it needs is then derived from that value (e.g. sqrt(1 - {have}**2) = |{miss}|), which loses its sign: the map is the exact flow only while omega*|dt| stays within a quarter period", node=f.node, file=f.file)
         return r
     if len(sins) != 1 or len(coss) != 1:
-        raise AnalysisError(f"{f.qualname}: expected exactly one sin and one cos term")
+        raise AnalysisError(f"{f.qualname}[{label}]: expected exactly one sin and one cos term")
     s, c = S(sins[0]), S(coss[0])
     for nm in (sins[0], coss[0]):
         arg = env.trig[nm]
         ok = arg.equals(omega * S(dt))
         r.inst({"argument of": nm[:3], "value": repr(arg), "ok": ok})
         if not ok:
-            r.violate(PROP, f"{f.qualname}:{nm[:3]}-argument:{arg!r}", f"{nm[:3]} is evaluated at {arg!r}; the oscillation frequency of h2 = q.q/2 + p.M^-1.p/2 in the eigenbasis of M is eigval**-1/2, so the argument must be dt * eigval**-1/2", node=f.node, file=f.file)
+            r.violate(PROP, f"{f.qualname}[{label}]:{nm[:3]}-argument:{arg!r}", f"{nm[:3]} is evaluated at {arg!r}; the oscillation frequency of h2 = q.q/2 + p.M^-1.p/2 in the eigenbasis of M is eigval**-1/2, so the argument must be dt * eigval**-1/2", node=f.node, file=f.file)
     # (d) eigenbasis structure: every term of q', p' is E * ET * (...) exactly once each
     for nm, v in (("pos", q1), ("mom", p1)):
         bad = False
         for m, _c in v.num.t.items():
             d = dict(m)
-            if d.get(E, 0) != 1 or d.get(ET, 0) != 1:
+            if (d.get(E, 0), d.get(ET, 0)) != (1, 1) and not (rot_free and (d.get(E, 0), d.get(ET, 0)) == (0, 0)):
                 bad = True
         r.inst({"eigenbasis structure of": nm, "ok": not bad})
         if bad:
-            r.violate(PROP, f"{f.qualname}:{nm}:eigenbasis", f"the new {nm} is not of the form eigvec @ (... eigvec.T @ x ...): a rotation into or out of the eigenbasis is missing or doubled", node=f.node, file=f.file)
+            r.violate(PROP, f"{f.qualname}[{label}]:{nm}:eigenbasis", f"the new {nm} is not of the form eigvec @ (... eigvec.T @ x ...): a rotation into or out of the eigenbasis is missing or doubled", node=f.node, file=f.file)
     # scalar (per-mode) model: eigvec, eigvec.T -> 1
     one = Rat.const(1)
     q1s = q1.subs(E, one).subs(ET, one)
@@ -123,7 +163,7 @@ def rule_r2(rep, program: Program):
     ok0 = q0.equals(q) and p0.equals(p)
     r.inst({"identity at t=0": ok0})
     if not ok0:
-        r.violate(PROP, f"{f.qualname}:t0:{q0!r},{p0!r}", f"at dt = 0 the flow returns ({q0!r}, {p0!r}) instead of (pos, mom)", node=f.node, file=f.file)
+        r.violate(PROP, f"{f.qualname}[{label}]:t0:{q0!r},{p0!r}", f"at dt = 0 the flow returns ({q0!r}, {p0!r}) instead of (pos, mom)", node=f.node, file=f.file)
     # (a) Hamilton's equations with the class's own derivative methods
     def d_dt(v: Rat) -> Rat:
         return v.diff(coss[0]) * (-omega * s) + v.diff(sins[0]) * (omega * c)
@@ -149,9 +189,9 @@ def rule_r2(rep, program: Program):
     r.inst({"d pos'/dt == dh2_dmom(pos', mom')": okq, "lhs": repr(lhs_q)[:100]})
     r.inst({"d mom'/dt == -dh2_dpos(pos', mom')": okp, "lhs": repr(lhs_p)[:100]})
     if not okq:
-        r.violate(PROP, f"{f.qualname}:ode:pos", f"the position output does not satisfy dq/dt = dh2/dp along the flow: d/dt = {lhs_q!r} but dh2_dmom at the flowed state is {rhs_q!r} (per eigen-mode)", node=f.node, file=f.file)
+        r.violate(PROP, f"{f.qualname}[{label}]:ode:pos", f"the position output does not satisfy dq/dt = dh2/dp along the flow: d/dt = {lhs_q!r} but dh2_dmom at the flowed state is {rhs_q!r} (per eigen-mode)", node=f.node, file=f.file)
     if not okp:
-        r.violate(PROP, f"{f.qualname}:ode:mom", f"the momentum output does not satisfy dp/dt = -dh2/dq along the flow: d/dt = {lhs_p!r} but -dh2_dpos at the flowed state is {rhs_p!r} (per eigen-mode)", node=f.node, file=f.file)
+        r.violate(PROP, f"{f.qualname}[{label}]:ode:mom", f"the momentum output does not satisfy dp/dt = -dh2/dq along the flow: d/dt = {lhs_p!r} but -dh2_dpos at the flowed state is {rhs_p!r} (per eigen-mode)", node=f.node, file=f.file)
     return r
 
 
